@@ -157,6 +157,25 @@ Fixpoint bparse (fuel : nat) (bs : bytes) {struct fuel} : bres bval :=
 
 Definition bdecode (bs : bytes) : bres bval := bparse (S (length bs)) bs.
 
+(* nesting depth of a value: scalars 0, a list or dictionary one more than its deepest element *)
+Fixpoint vdepth (v : bval) : N :=
+  match v with
+  | BInt _ | BStr _ => 0
+  | BList l => 1 + fold_right (fun x m => N.max (vdepth x) m) 0 l
+  | BDict kvs => 1 + fold_right (fun kv m => N.max (vdepth (snd kv)) m) 0 kvs
+  end.
+
+(* protocol/reader.go passes the payload of a bencoded extension message through a reader that
+   fails once the first value nests deeper than maxBencodeDepth (the decoder is recursive).  On a
+   payload the decoder would have accepted, the composition fails exactly when the value nests
+   deeper than that; on anything else it fails as before. *)
+Definition max_bencode_depth : N := 64.
+Definition bdecode_lim (bs : bytes) : bres bval :=
+  match bdecode bs with
+  | BOk v r k => if max_bencode_depth <? vdepth v then BErr BSyntax k else BOk v r k
+  | e => e
+  end.
+
 (* ---------- typed views (what Decode stores into Go values) ---------- *)
 
 (* interface{} destination: every integer must satisfy ParseInt(.,10,64) *)
@@ -193,6 +212,10 @@ Fixpoint all_uint8 (l : list bval) : option bytes :=
   end.
 Definition as_bytes_field (v : bval) : option bytes :=
   match v with BStr s => Some s | BList l => all_uint8 l | _ => None end.
+
+(* library quirk: an empty list decoded into a []byte field leaves the field as it was (seen with a
+   repeated key: 5:added6:...  5:addedle keeps the first value) *)
+Definition is_empty_list (v : bval) : bool := match v with BList [] => true | _ => false end.
 
 Fixpoint bytes_eqb (a b : bytes) : bool :=
   match a, b with
